@@ -85,7 +85,7 @@ Lemma exec_sound : forall o c a a' st0 h h' e,
 Proof.
   intros o c.
   induction c as [ |c1 IHc1 c2 IHc2|x e1|x y|x y|x y k1|x y|x k1 e1|x k1|x e1|x kind its|x f e1|b c1 IHc1 c2 IHc2
-                 |eo k x y c IHc|er];
+                 |eo k x y c IHc|e1|er];
     intros a a' st0 h h' e Hc Hinv Hs He; unfold exec_ok; cbn [check exec] in *.
   - (* CSkip *) injection Hc as <-; inversion He; subst. split; [exact Hinv|]. split; [lia|]. intros _. exact Hs.
   - (* CSeq *)
@@ -193,7 +193,7 @@ Proof.
       - cbn in He1. inversion He1; subst. split; [exact Hinv1|]. split; [exact Hle|]. intros _. exact HJ1.
       - inversion Hl1 as [|? ? Hkv Hr]; subst.
         unfold loopf in He1. cbn fix beta iota in He1. fold loopf in He1.
-        destruct (exec o c (mkH (h_st hc) (setr (setr (h_env hc) k (fst kv)) x (snd kv)) (h_lim hc) (h_log hc) (h_copies hc)))
+        destruct (exec o c (mkH (h_st hc) (setr (setr (h_env hc) k (fst kv)) x (snd kv)) (h_lim hc) (h_log hc) (h_copies hc) (h_out hc)))
           as [h1 e1] eqn:X1.
         assert (S0 : senv (length st0) (length (h_st hc)) a0 (setr (setr (h_env hc) k (fst kv)) x (snd kv))).
         { intros r0 Hr0. pose proof Hr0 as Hr1. unfold a0 in Hr1. rewrite !own_aset in Hr1. unfold setr.
@@ -209,21 +209,27 @@ Proof.
             apply (C eq_refl). eapply sub_own; eauto.
           * lia. }
     apply (G l0 h); auto.
+  - (* COut *) injection Hc as <-; inversion He; subst; cbn [h_st h_env]. split; [exact Hinv|]. split; [lia|]. intros _. exact Hs.
   - (* CRaise *) injection Hc as <-; inversion He; subst. split; [exact Hinv|]. split; [lia|]. discriminate.
 Qed.
 
 Lemma senv_nil : forall m n env, senv m n [] env.
 Proof. intros m n env r Hr. discriminate. Qed.
 
-(* THE FRAME THEOREM: any program the analysis accepts, run on any store with any argument and options, leaves every
-   location that existed before the call as it was and allocates a region closed under references - on the normal exit
-   and on every raising exit. *)
+(* THE FRAME THEOREM: any program the analysis accepts, run on any store with any register file (argument, instance state)
+   and options, leaves every location that existed before the call as it was and allocates a region closed under
+   references - on the normal exit and on every raising exit. *)
+Theorem prog_footprint_env : forall p a' o st env,
+  check p [] = Some a' -> inv st (h_st (fst (exec o p (mkH st env (length st) [] 0 [])))).
+Proof.
+  intros p a' o st env Hc. destruct (exec o p (mkH st env (length st) [] 0 [])) as [h' e] eqn:E.
+  destruct (exec_sound o p [] a' st (mkH st env (length st) [] 0 []) h' e Hc (inv_refl st) (senv_nil _ _ _) E) as (A & _).
+  exact A.
+Qed.
+
 Theorem prog_footprint : forall p a' o st s,
   check p [] = Some a' -> inv st (h_st (fst (run_prog p o st s))).
-Proof.
-  intros p a' o st s Hc. unfold run_prog. destruct (exec o p (hstate0 st s)) as [h' e] eqn:E.
-  destruct (exec_sound o p [] a' st (hstate0 st s) h' e Hc (inv_refl st) (senv_nil _ _ _) E) as (A & _). exact A.
-Qed.
+Proof. intros. unfold run_prog, hstate0. eapply prog_footprint_env; eauto. Qed.
 
 Theorem prog_preserves_store : forall p a' o st s l,
   check p [] = Some a' -> (l < length st)%nat -> get (h_st (fst (run_prog p o st s))) l = get st l.
@@ -234,27 +240,28 @@ Theorem prog_preserves_snapshots : forall p a' o st s fuel v,
   snap fuel (h_st (fst (run_prog p o st s))) v = snap fuel st v.
 Proof. intros. apply snap_agree; auto. apply (inv_agree _ _ (prog_footprint p a' o st s H)). Qed.
 
-(* the obligation of the eight writers: their programs pass the analysis *)
-Theorem writers_owned : forall k, exists a', check (prog_of k) [] = Some a'.
+(* the obligation of the eight writers: their programs pass the analysis (with and without the open_span reset line) *)
+Theorem writers_owned : forall reset k, exists a', check (prog_with reset k) [] = Some a'.
 Proof.
-  intros k. unfold prog_of.
-  destruct (k =? W_DFXP); [eexists; vm_compute; reflexivity|].
-  destruct (k =? W_SAMI); [eexists; vm_compute; reflexivity|].
-  destruct (k =? W_LEGACY); [eexists; vm_compute; reflexivity|].
-  destruct (k =? W_SINGLE); [eexists; vm_compute; reflexivity|].
-  destruct (k =? W_VTT); [eexists; vm_compute; reflexivity|].
-  destruct (k =? W_SCC); [eexists; vm_compute; reflexivity|].
-  eexists; vm_compute; reflexivity.
+  intros reset k. unfold prog_with, reset_line, body_of, is_span_kind.
+  destruct reset;
+  (destruct (k =? W_DFXP); [eexists; vm_compute; reflexivity|];
+   destruct (k =? W_SAMI); [destruct (k =? W_SINGLE); destruct (k =? W_LEGACY); eexists; vm_compute; reflexivity|];
+   destruct (k =? W_LEGACY); [destruct (k =? W_SINGLE); eexists; vm_compute; reflexivity|];
+   destruct (k =? W_SINGLE); [eexists; vm_compute; reflexivity|];
+   destruct (k =? W_VTT); [eexists; vm_compute; reflexivity|];
+   destruct (k =? W_SCC); [eexists; vm_compute; reflexivity|];
+   eexists; vm_compute; reflexivity).
 Qed.
 
-Lemma wr_store_writeP : forall c k o i st s, wr_store (writeP c k o i st s) = h_st (fst (run_prog (prog_of k) o st s)).
-Proof. intros. unfold writeP. destruct (run_prog (prog_of k) o st s) as [h e]. reflexivity. Qed.
+Lemma wr_store_writeP : forall c k o i st s,
+  wr_store (writeP c k o i st s) = h_st (fst (exec o (prog_with (fix15 c) k) (mkH st (inst_env i s) (length st) [] 0 []))).
+Proof. intros. unfold writeP. destruct (exec o (prog_with (fix15 c) k) _) as [h e]. reflexivity. Qed.
 
 Theorem writeP_inv : forall c k o i st s, inv st (wr_store (writeP c k o i st s)).
 Proof.
-  intros. rewrite wr_store_writeP. destruct (writers_owned k) as [a' Ha]. eapply prog_footprint; eauto.
+  intros. rewrite wr_store_writeP. destruct (writers_owned (fix15 c) k) as [a' Ha]. eapply prog_footprint_env; eauto.
 Qed.
-
 Theorem writeP_preserves_input : forall c k o i st s fuel v,
   wf st -> below (length st) v -> snap fuel (wr_store (writeP c k o i st s)) v = snap fuel st v.
 Proof. intros. apply snap_agree; auto. apply (inv_agree _ _ (writeP_inv c k o i st s)). Qed.
